@@ -16,8 +16,12 @@ from operator import mul
 from pathlib import Path
 
 import numpy as np
-from numpy.lib.format import (
-    _check_version, _write_array_header, dtype_to_descr)
+try:
+    from numpy.lib.format import (
+        _check_version, _write_array_header, dtype_to_descr)
+except ImportError:  # NumPy >= 2 no longer re-exports the private helpers
+    from numpy.lib._format_impl import (
+        _check_version, _write_array_header, dtype_to_descr)
 import mtscomp
 from tqdm import tqdm
 
